@@ -428,4 +428,462 @@ theorem shortest_fold : ∀ (ps : List Str) (p : Str),
           | inl h => subst h; omega
           | inr h => exact h3 q h
 
+/-! ### paths vs. values (C08_paths_values) -/
+
+theorem splitGo_noDot : ∀ (x : Str) (acc rest : Str), (∀ c ∈ x, c ≠ '.') →
+    splitGo ['.'] (x ++ rest) 0 acc = splitGo ['.'] rest 0 (x.reverse ++ acc)
+  | [], acc, rest, _ => by simp
+  | c :: x, acc, rest, h => by
+      have hc : c ≠ '.' := h c (by simp)
+      have hb : (('.' : Char) == c) = false := by
+        simp only [beq_eq_false_iff_ne, ne_eq]; exact fun e => hc e.symm
+      have ih := splitGo_noDot x (c :: acc) rest (fun d hd => h d (by simp [hd]))
+      simp only [List.cons_append, splitGo, List.isPrefixOf, hb, Bool.false_and,
+        Bool.false_eq_true, if_false, ih, List.reverse_cons, List.append_assoc, List.nil_append]
+
+theorem splitGo_dot (rest acc : Str) :
+    splitGo ['.'] ('.' :: rest) 0 acc = acc.reverse :: splitGo ['.'] rest 0 [] := by
+  simp [splitGo, List.isPrefixOf]
+
+theorem splitDot_joinDot : ∀ q : List Str, q ≠ [] → (∀ k ∈ q, ∀ c ∈ k, c ≠ '.') →
+    splitDot (joinDot q) = q
+  | [], h, _ => absurd rfl h
+  | [x], _, hq => by
+      have h := splitGo_noDot x [] [] (hq x (by simp))
+      simp only [List.append_nil] at h
+      simp only [splitDot, splitOn, joinDot, joinWith, h, splitGo, List.reverse_reverse]
+  | x :: y :: r, _, hq => by
+      have ih := splitDot_joinDot (y :: r) (by simp) (fun k hk => hq k (by simp [hk]))
+      have h := splitGo_noDot x [] ('.' :: joinDot (y :: r)) (hq x (by simp))
+      simp only [splitDot, splitOn, joinDot] at ih
+      simp only [splitDot, splitOn, joinDot, joinWith, List.append_assoc, List.cons_append,
+        List.nil_append]
+      simp only [joinDot] at h
+      rw [h, splitGo_dot, List.append_nil, List.reverse_reverse, ih]
+
+theorem keySafe_noDot (k : Str) (h : keySafe k = true) : ∀ c ∈ k, c ≠ '.' := by
+  intro c hc e
+  subst e
+  simp only [keySafe, Bool.and_eq_true, Bool.not_eq_true', List.contains_eq_mem,
+    decide_eq_false_iff_not] at h
+  exact h.1.1.2 hc
+
+theorem keySafe_ne_star (k : Str) (h : keySafe k = true) : k ≠ ['*'] := by
+  intro e
+  subst e
+  simp [keySafe] at h
+
+theorem pathKeys_joinDot (q : List Str) (hne : q ≠ []) (hq : ∀ k ∈ q, keySafe k = true) :
+    pathKeys (joinDot q) = q := by
+  unfold pathKeys
+  rw [splitDot_joinDot q hne (fun k hk => keySafe_noDot k (hq k hk))]
+  unfold dropTrailingEmpty
+  split
+  · rename_i hl
+    have hm : ([] : Str) ∈ q := List.mem_of_getLast? hl
+    exact absurd rfl (keySafe_ne_nil [] (hq [] hm))
+  · rfl
+
+mutual
+theorem keyPaths_safe : ∀ (v : Val), pathSafe v = true → ∀ q ∈ keyPaths v, ∀ k ∈ q, keySafe k = true
+  | .map kvs, hs, q, h => keyPathsEntries_safe kvs (by simpa [pathSafe] using hs) q
+      (by simpa [keyPaths] using h)
+  | .list xs, hs, q, h => keyPathsList_safe xs (by simpa [pathSafe] using hs) q
+      (by simpa [keyPaths] using h)
+  | .null, _, q, h => by simp [keyPaths] at h
+  | .bool _, _, q, h => by simp [keyPaths] at h
+  | .num _, _, q, h => by simp [keyPaths] at h
+  | .str _, _, q, h => by simp [keyPaths] at h
+theorem keyPathsList_safe : ∀ (xs : List Val), pathSafeList xs = true →
+    ∀ q ∈ keyPathsList xs, ∀ k ∈ q, keySafe k = true
+  | [], _, q, h => by simp [keyPathsList] at h
+  | x :: xs, hs, q, h => by
+      simp only [pathSafeList, Bool.and_eq_true] at hs
+      simp only [keyPathsList, List.mem_append] at h
+      cases h with
+      | inl h => exact keyPaths_safe x hs.1 q h
+      | inr h => exact keyPathsList_safe xs hs.2 q h
+theorem keyPathsEntries_safe : ∀ (kvs : Entries), pathSafeEntries kvs = true →
+    ∀ q ∈ keyPathsEntries kvs, ∀ k ∈ q, keySafe k = true
+  | [], _, q, h => by simp [keyPathsEntries] at h
+  | (k, v) :: rest, hs, q, h => by
+      simp only [pathSafeEntries, Bool.and_eq_true] at hs
+      simp only [keyPathsEntries, List.mem_append, List.mem_cons, List.mem_map] at h
+      rcases h with (h | ⟨q', hq', h⟩) | h
+      · subst h; intro k' hk'; simp only [List.mem_singleton] at hk'; subst hk'; exact hs.1.1
+      · subst h
+        intro k' hk'
+        simp only [List.mem_cons] at hk'
+        cases hk' with
+        | inl e => subst e; exact hs.1.1
+        | inr hm => exact keyPaths_safe v hs.1.2 q' hq' k' hm
+      · exact keyPathsEntries_safe rest hs.2 q h
+end
+
+theorem flatMap_congr_mem {α β} {l : List α} {f g : α → List β} (h : ∀ a ∈ l, f a = g a) :
+    l.flatMap f = l.flatMap g := by
+  induction l with
+  | nil => rfl
+  | cons a l ih =>
+    simp only [List.flatMap_cons]
+    rw [h a (by simp), ih (fun b hb => h b (by simp [hb]))]
+
+theorem perm_4 {α} (a b c d : List α) : ((a ++ b) ++ (c ++ d)).Perm ((a ++ c) ++ (b ++ d)) := by
+  simp only [List.append_assoc]
+  apply List.Perm.append_left
+  rw [← List.append_assoc, ← List.append_assoc]
+  exact List.Perm.append_right d List.perm_append_comm
+
+theorem flatMap_append_fun_perm {α β} (g h : α → List β) : ∀ l : List α,
+    (l.flatMap fun b => g b ++ h b).Perm (l.flatMap g ++ l.flatMap h)
+  | [] => by simp
+  | b :: l => by
+      simp only [List.flatMap_cons]
+      exact (List.Perm.append_left _ (flatMap_append_fun_perm g h l)).trans (perm_4 _ _ _ _)
+
+theorem flatMap_swap_perm {α β γ} (f : α → β → List γ) (l2 : List β) : ∀ l1 : List α,
+    (l1.flatMap fun a => l2.flatMap (f a)).Perm (l2.flatMap fun b => l1.flatMap fun a => f a b)
+  | [] => by simp
+  | a :: l1 => by
+      simp only [List.flatMap_cons]
+      exact (List.Perm.append_left _ (flatMap_swap_perm f l2 l1)).trans
+        (flatMap_append_fun_perm (f a) (fun b => l1.flatMap fun a => f a b) l2).symm
+
+theorem walk_nil_members (v : Val) : walk none v [] = members v := by
+  cases v <;> simp [walk, loadLeaf, passSubs, members]
+
+theorem noLL_members_cons (x : Val) (xs : List Val) (h : Denote.noLL_members (x :: xs) = true) :
+    x.isList = false ∧ Denote.noListInList x = true ∧ Denote.noLL_members xs = true := by
+  cases x <;> simp_all [Denote.noLL_members, Val.isList]
+
+theorem walk_list_eq (k : Str) (ks : List Str) (hk : k ≠ ['*']) : ∀ xs : List Val,
+    Denote.noLL_members xs = true →
+    walk none (.list xs) (k :: ks) = xs.flatMap (fun x => walk none x (k :: ks)) := by
+  intro xs h
+  simp only [walk, hk, if_false]
+  induction xs with
+  | nil => rfl
+  | cons x xs ih =>
+    obtain ⟨hx, _, hxs⟩ := noLL_members_cons x xs h
+    simp only [List.flatMap_cons, ih hxs]
+    congr 1
+    cases x <;> simp_all [walk, Val.isList]
+
+/-- with distinct keys, a lookup-and-continue is a sum over the entries carrying that key -/
+theorem lookup_flatMap {β} (f : Val → List β) (key : Str) : ∀ kvs : Entries,
+    distinctKeys kvs = true →
+    (match lookup key kvs with
+      | some v => f v
+      | none => []) = kvs.flatMap fun e => if e.1 = key then f e.2 else []
+  | [], _ => by simp [lookup]
+  | (k, v) :: rest, h => by
+      simp only [distinctKeys, Bool.and_eq_true, Bool.not_eq_true', List.any_eq_false,
+        beq_iff_eq] at h
+      by_cases hk : key = k
+      · subst hk
+        have hnone : (rest.flatMap fun e => if e.1 = key then f e.2 else []) = [] := by
+          rw [List.flatMap_eq_nil_iff]
+          intro e he
+          simp [h.1 e he]
+        simp only [lookup, if_true, List.flatMap_cons, hnone, List.append_nil]
+      · have hk' : ¬ k = key := fun e => hk e.symm
+        simp only [lookup, hk, if_false, List.flatMap_cons, hk', List.nil_append]
+        exact lookup_flatMap f key rest h.2
+
+/-- the tails of the key sequences in `D` that start with `k` -/
+def tailsOf (k : Str) (D : List (List Str)) : List (List Str) :=
+  D.filterMap fun q => match q with
+    | k' :: t => if k' = k then some t else none
+    | [] => none
+
+theorem mem_tailsOf (k : Str) (D : List (List Str)) (t : List Str) :
+    t ∈ tailsOf k D ↔ k :: t ∈ D := by
+  unfold tailsOf
+  rw [List.mem_filterMap]
+  constructor
+  · rintro ⟨q, hq, h⟩
+    cases q with
+    | nil => simp at h
+    | cons k' t' =>
+      simp only at h
+      split at h
+      · rename_i hk; subst hk; cases h; exact hq
+      · cases h
+  · intro h
+    exact ⟨k :: t, h, by simp⟩
+
+theorem nodup_tailsOf (k : Str) : ∀ D : List (List Str), D.Nodup → (tailsOf k D).Nodup
+  | [], _ => by simp [tailsOf]
+  | q :: D, h => by
+      rw [List.nodup_cons] at h
+      have ih := nodup_tailsOf k D h.2
+      cases q with
+      | nil => simpa [tailsOf] using ih
+      | cons k' t =>
+        by_cases hk : k' = k
+        · subst hk
+          have : tailsOf k' ((k' :: t) :: D) = t :: tailsOf k' D := by simp [tailsOf]
+          rw [this, List.nodup_cons]
+          exact ⟨fun hm => h.1 ((mem_tailsOf k' D t).1 hm), ih⟩
+        · have : tailsOf k ((k' :: t) :: D) = tailsOf k D := by simp [tailsOf, hk]
+          rw [this]; exact ih
+
+theorem flatMap_tailsOf {β} (k : Str) (g : List Str → List β) : ∀ D : List (List Str),
+    (D.flatMap fun q => match q with
+      | k' :: t => if k' = k then g t else []
+      | [] => []) = (tailsOf k D).flatMap g
+  | [] => by simp [tailsOf]
+  | q :: D => by
+      have ih := flatMap_tailsOf k g D
+      cases q with
+      | nil =>
+        have : tailsOf k ([] :: D) = tailsOf k D := by simp [tailsOf]
+        simp only [List.flatMap_cons, this, List.nil_append, ih]
+      | cons k' t =>
+        by_cases hk : k' = k
+        · subst hk
+          have : tailsOf k' ((k' :: t) :: D) = t :: tailsOf k' D := by simp [tailsOf]
+          simp only [List.flatMap_cons, this, if_true, ih]
+        · have : tailsOf k ((k' :: t) :: D) = tailsOf k D := by simp [tailsOf, hk]
+          simp only [List.flatMap_cons, this, hk, if_false, List.nil_append, ih]
+
+theorem flatMap_filter_isEmpty {β} (g : List Str → List β) : ∀ T : List (List Str), T.Nodup →
+    (T.filter (fun t => t.isEmpty)).flatMap g = if [] ∈ T then g [] else []
+  | [], _ => by simp
+  | t :: T, h => by
+      rw [List.nodup_cons] at h
+      have ih := flatMap_filter_isEmpty g T h.2
+      cases t with
+      | nil =>
+        have hn : ([] : List Str) ∉ T := h.1
+        simp only [hn, if_false] at ih
+        simp [ih]
+      | cons a t =>
+        simp only [List.filter_cons, List.isEmpty_cons, Bool.false_eq_true, if_false, ih,
+          List.mem_cons]
+        simp
+
+/-- the admissible path sets: non-empty key sequences without `*`, all ending in `key` -/
+def GoodD (key : Str) (D : List (List Str)) : Prop :=
+  ∀ q ∈ D, q ≠ [] ∧ q.getLast? = some key ∧ ∀ k ∈ q, k ≠ ['*']
+
+/-- one entry's share of `walk none (.map kvs) q` -/
+def entryWalk (e : Str × Val) (q : List Str) : List Val :=
+  match q with
+  | k' :: t => if k' = e.1 then walk none e.2 t else []
+  | [] => []
+
+theorem walk_map_entries (kvs : Entries) (hd : distinctKeys kvs = true) (q : List Str)
+    (hne : q ≠ []) (hstar : ∀ k ∈ q, k ≠ ['*']) :
+    walk none (.map kvs) q = kvs.flatMap fun e => entryWalk e q := by
+  cases q with
+  | nil => exact absurd rfl hne
+  | cons k t =>
+    have hk : k ≠ ['*'] := hstar k (by simp)
+    simp only [walk, hk, if_false, entryWalk]
+    have h := lookup_flatMap (fun v => walk none v t) k kvs hd
+    simp only [eq_comm (a := k)]
+    rw [← h]
+    cases lookup k kvs <;> rfl
+
+mutual
+theorem walk_paths_perm (key : Str) (hkey : key ≠ ['*']) : ∀ (v : Val) (D : List (List Str)),
+    D.Nodup → GoodD key D →
+    (∀ q ∈ keyPaths v, q.getLast? = some key → q ∈ D) →
+    v.wf = true → Denote.noListInList v = true →
+    (D.flatMap (walk none v)).Perm (hasKey key [] v)
+  | .map kvs, D, hnd, hg, hsup, hwf, hn => by
+      simp only [Val.wf, Bool.and_eq_true] at hwf
+      simp only [Denote.noListInList] at hn
+      simp only [keyPaths] at hsup
+      have h1 : D.flatMap (walk none (.map kvs))
+          = D.flatMap (fun q => kvs.flatMap fun e => entryWalk e q) :=
+        flatMap_congr_mem (fun q hq => walk_map_entries kvs hwf.2 q (hg q hq).1 (hg q hq).2.2)
+      have h2 := walk_paths_perm_entries key hkey kvs D hnd hg hsup hwf.1 hn
+      have h3 : hasKey key [] (.map kvs)
+          = (kvs.flatMap fun e => if e.1 = key then members e.2 else [])
+            ++ hasKeyEntries key [] kvs := by
+        have hl := lookup_flatMap members key kvs hwf.2
+        simp only [hasKey, hkey, if_false, List.append_nil]
+        rw [← hl]
+        cases lookup key kvs <;> simp [loadKeyVal_nil]
+      rw [h1, h3]
+      exact (flatMap_swap_perm (fun q e => entryWalk e q) kvs D).trans h2
+  | .list xs, D, hnd, hg, hsup, hwf, hn => by
+      simp only [Val.wf] at hwf
+      simp only [Denote.noListInList] at hn
+      simp only [keyPaths] at hsup
+      have h1 : D.flatMap (walk none (.list xs))
+          = D.flatMap (fun q => xs.flatMap fun x => walk none x q) := by
+        apply flatMap_congr_mem
+        intro q hq
+        obtain ⟨hne, _, hst⟩ := hg q hq
+        cases q with
+        | nil => exact absurd rfl hne
+        | cons k t => exact walk_list_eq k t (hst k (by simp)) xs hn
+      rw [h1]
+      simp only [hasKey]
+      exact (flatMap_swap_perm (fun q x => walk none x q) xs D).trans
+        (walk_paths_perm_list key hkey xs D hnd hg hsup hwf hn)
+  | .null, D, _, hg, _, _, _ => by
+      have : D.flatMap (walk none .null) = D.flatMap (fun _ => ([] : List Val)) :=
+        flatMap_congr_mem (fun q hq => by
+          cases q with
+          | nil => exact absurd rfl (hg [] hq).1
+          | cons k t => simp [walk])
+      rw [this]; simp [hasKey]
+  | .bool b, D, _, hg, _, _, _ => by
+      have : D.flatMap (walk none (.bool b)) = D.flatMap (fun _ => ([] : List Val)) :=
+        flatMap_congr_mem (fun q hq => by
+          cases q with
+          | nil => exact absurd rfl (hg [] hq).1
+          | cons k t => simp [walk])
+      rw [this]; simp [hasKey]
+  | .num t, D, _, hg, _, _, _ => by
+      have : D.flatMap (walk none (.num t)) = D.flatMap (fun _ => ([] : List Val)) :=
+        flatMap_congr_mem (fun q hq => by
+          cases q with
+          | nil => exact absurd rfl (hg [] hq).1
+          | cons k t => simp [walk])
+      rw [this]; simp [hasKey]
+  | .str t, D, _, hg, _, _, _ => by
+      have : D.flatMap (walk none (.str t)) = D.flatMap (fun _ => ([] : List Val)) :=
+        flatMap_congr_mem (fun q hq => by
+          cases q with
+          | nil => exact absurd rfl (hg [] hq).1
+          | cons k t => simp [walk])
+      rw [this]; simp [hasKey]
+theorem walk_paths_perm_list (key : Str) (hkey : key ≠ ['*']) : ∀ (xs : List Val)
+    (D : List (List Str)), D.Nodup → GoodD key D →
+    (∀ q ∈ keyPathsList xs, q.getLast? = some key → q ∈ D) →
+    Val.wfList xs = true → Denote.noLL_members xs = true →
+    (xs.flatMap fun x => D.flatMap (walk none x)).Perm (hasKeyList key [] xs)
+  | [], _, _, _, _, _, _ => by simp [hasKeyList]
+  | x :: xs, D, hnd, hg, hsup, hwf, hn => by
+      simp only [Val.wfList, Bool.and_eq_true] at hwf
+      obtain ⟨_, hnx, hnxs⟩ := noLL_members_cons x xs hn
+      simp only [keyPathsList, List.mem_append] at hsup
+      simp only [List.flatMap_cons, hasKeyList]
+      exact List.Perm.append
+        (walk_paths_perm key hkey x D hnd hg (fun q hq => hsup q (Or.inl hq)) hwf.1 hnx)
+        (walk_paths_perm_list key hkey xs D hnd hg (fun q hq => hsup q (Or.inr hq)) hwf.2 hnxs)
+theorem walk_paths_perm_entries (key : Str) (hkey : key ≠ ['*']) : ∀ (kvs : Entries)
+    (D : List (List Str)), D.Nodup → GoodD key D →
+    (∀ q ∈ keyPathsEntries kvs, q.getLast? = some key → q ∈ D) →
+    Val.wfEntries kvs = true → Denote.noLL_entries kvs = true →
+    (kvs.flatMap fun e => D.flatMap (entryWalk e)).Perm
+      ((kvs.flatMap fun e => if e.1 = key then members e.2 else []) ++ hasKeyEntries key [] kvs)
+  | [], _, _, _, _, _, _ => by simp [hasKeyEntries]
+  | (k, v) :: rest, D, hnd, hg, hsup, hwf, hn => by
+      simp only [Val.wfEntries, Bool.and_eq_true] at hwf
+      simp only [Denote.noLL_entries, Bool.and_eq_true] at hn
+      have hsup_rest : ∀ q ∈ keyPathsEntries rest, q.getLast? = some key → q ∈ D := by
+        intro q hq hl
+        apply hsup q _ hl
+        simp only [keyPathsEntries, List.mem_append]
+        exact Or.inr hq
+      have ihr := walk_paths_perm_entries key hkey rest D hnd hg hsup_rest hwf.2 hn.2
+      -- the entry (k, v)
+      have hT : D.flatMap (entryWalk (k, v)) = (tailsOf k D).flatMap (walk none v) :=
+        flatMap_tailsOf k (walk none v) D
+      have hTnd := nodup_tailsOf k D hnd
+      have hsplit := (List.filter_append_perm (fun t : List Str => t.isEmpty) (tailsOf k D))
+      have hmem : ([] ∈ tailsOf k D) ↔ k = key := by
+        rw [mem_tailsOf]
+        constructor
+        · intro h
+          have := (hg [k] h).2.1
+          simpa using this
+        · intro h
+          apply hsup [k] _ (by simp [h])
+          simp [keyPathsEntries]
+      have hA : ((tailsOf k D).filter (fun t => t.isEmpty)).flatMap (walk none v)
+          = if k = key then members v else [] := by
+        rw [flatMap_filter_isEmpty (walk none v) _ hTnd, walk_nil_members]
+        by_cases h : k = key
+        · have hm := hmem.2 h
+          rw [if_pos hm, if_pos h]
+        · have hm : [] ∉ tailsOf k D := fun hm => h (hmem.1 hm)
+          simp only [hm, h, if_false]
+      have hB : (((tailsOf k D).filter (fun t => !t.isEmpty)).flatMap (walk none v)).Perm
+          (hasKey key [] v) := by
+        apply walk_paths_perm key hkey v _ (List.Nodup.sublist List.filter_sublist hTnd)
+        · intro t ht
+          simp only [List.mem_filter, mem_tailsOf, Bool.not_eq_true', List.isEmpty_eq_false_iff]
+            at ht
+          obtain ⟨_, hl, hst⟩ := hg (k :: t) ht.1
+          refine ⟨ht.2, ?_, fun k' hk' => hst k' (by simp [hk'])⟩
+          rw [getLast?_cons_of_ne_nil k t ht.2] at hl
+          exact hl
+        · intro q hq hl
+          have hqne := keyPaths_ne_nil v q hq
+          simp only [List.mem_filter, mem_tailsOf, Bool.not_eq_true', List.isEmpty_eq_false_iff]
+          refine ⟨hsup (k :: q) ?_ ?_, hqne⟩
+          · simp only [keyPathsEntries, List.mem_append, List.mem_cons, List.mem_map]
+            exact Or.inl (Or.inr ⟨q, hq, rfl⟩)
+          · rw [getLast?_cons_of_ne_nil k q hqne]; exact hl
+        · exact hwf.1
+        · exact hn.1
+      have hkv : (D.flatMap (entryWalk (k, v))).Perm
+          ((if k = key then members v else []) ++ hasKey key [] v) := by
+        rw [hT]
+        refine (List.Perm.flatMap_right (walk none v) hsplit.symm).trans ?_
+        rw [List.flatMap_append, hA]
+        exact List.Perm.append_left _ hB
+      simp only [List.flatMap_cons, hasKeyEntries]
+      exact (List.Perm.append hkv ihr).trans (perm_4 _ _ _ _)
+end
+
+theorem nodup_map_on {α β} (f : α → β) : ∀ l : List α,
+    (∀ a ∈ l, ∀ b ∈ l, f a = f b → a = b) → l.Nodup → (l.map f).Nodup
+  | [], _, _ => by simp
+  | a :: l, hinj, h => by
+      rw [List.nodup_cons] at h
+      rw [List.map_cons, List.nodup_cons]
+      refine ⟨?_, nodup_map_on f l (fun x hx y hy => hinj x (by simp [hx]) y (by simp [hy])) h.2⟩
+      intro hm
+      obtain ⟨b, hb, hfb⟩ := List.mem_map.1 hm
+      have := hinj b (by simp [hb]) a (by simp) hfb
+      subst this
+      exact h.1 hb
+
+theorem mem_pathsForKey (m : Val) (key : Str) (hs : pathSafe m = true) (p : Str) :
+    p ∈ Mxj.pathsForKey m key ↔
+      ∃ q, q ∈ keyPaths m ∧ q.getLast? = some key ∧ p = joinDot q := by
+  unfold Mxj.pathsForKey
+  have h := mem_hasKeyPath key m [] (by simp) hs p
+  simp only [List.nil_append] at h
+  have hj : joinDot [] = ([] : Str) := rfl
+  rw [hj] at h
+  rw [List.mem_eraseDups, h]
+
+theorem paths_values_perm (m : Val) (key : Str) (hwf : m.wf = true) (hs : pathSafe m = true)
+    (hn : Denote.noListInList m = true) (hk : keySafe key = true) :
+    List.Perm ((Mxj.pathsForKey m key).flatMap fun p => oldValues none m p) (hasKey key [] m) := by
+  have hP := mem_pathsForKey m key hs
+  have hpk : ∀ q ∈ keyPaths m, pathKeys (joinDot q) = q := fun q hq =>
+    pathKeys_joinDot q (keyPaths_ne_nil m q hq) (keyPaths_safe m hs q hq)
+  have h1 : ((Mxj.pathsForKey m key).flatMap fun p => oldValues none m p)
+      = ((Mxj.pathsForKey m key).map pathKeys).flatMap (walk none m) := by
+    rw [List.flatMap_map]; rfl
+  rw [h1]
+  apply walk_paths_perm key (keySafe_ne_star key hk) m
+  · apply nodup_map_on pathKeys _ _ (nodup_eraseDups _)
+    intro a ha b hb hab
+    obtain ⟨qa, hqa, _, rfl⟩ := (hP a).1 ha
+    obtain ⟨qb, hqb, _, rfl⟩ := (hP b).1 hb
+    rw [hpk qa hqa, hpk qb hqb] at hab
+    rw [hab]
+  · intro q hq
+    obtain ⟨p, hp, rfl⟩ := List.mem_map.1 hq
+    obtain ⟨q', hq', hl, rfl⟩ := (hP p).1 hp
+    rw [hpk q' hq']
+    exact ⟨keyPaths_ne_nil m q' hq', hl,
+      fun k hk' => keySafe_ne_star k (keyPaths_safe m hs q' hq' k hk')⟩
+  · intro q hq hl
+    apply List.mem_map.2
+    exact ⟨joinDot q, (hP (joinDot q)).2 ⟨q, hq, hl, rfl⟩, hpk q hq⟩
+  · exact hwf
+  · exact hn
+
 end Mxj
